@@ -1,6 +1,6 @@
 //go:build verif
 
-package proto
+package PKGNAME
 
 // vBytesEq compares two byte slices without control-flow on their contents.
 func vBytesEq(a, b []byte) bool {
